@@ -542,13 +542,88 @@ Section XOps.
     let fl := template_flags validate include_crds cli in
     if dry_opt_allowed (xf_opt fl) then x_install g fl c else XRet xerr.
 
+  (* ---------------- the command layer: pkg/cmd/{install,upgrade,rollback,uninstall}.go ----------------
+     --dry-run as it arrives: None = flag absent; Some None = the bare flag; Some (Some v) =
+     --dry-run=v.  install / upgrade: a string flag whose bare form means "client" (NoOptDefVal),
+     an empty value becomes "none", validateDryRunOptionFlag refuses everything outside its list
+     BEFORE the action runs; upgrade --install first asks the history (History.Run: reachability
+     check, one query) and installs when there is no release or the last one is uninstalled.
+     rollback / uninstall: a boolean flag parsed by strconv.ParseBool. *)
+  Inductive cmdkind := CInstall | CUpgrade | CUpgradeInstall | CRollback | CUninstall.
+
+  Definition dry_arg := option (option string).
+
+  Definition cmd_string_opt (a : dry_arg) : string :=
+    match a with None => "" | Some None => "client" | Some (Some v) => v end.
+
+  Definition cmd_default_opt (s : string) : string := if String.eqb s "" then "none" else s.
+
+  Definition str_in (s : string) (l : list string) : bool := existsb (String.eqb s) l.
+
+  Definition parse_bool (s : string) : option bool :=
+    if str_in s ["1"; "t"; "T"; "TRUE"; "true"; "True"] then Some true
+    else if str_in s ["0"; "f"; "F"; "FALSE"; "false"; "False"] then Some false
+    else None.
+
+  Definition cmd_bool_opt (a : dry_arg) : option bool :=
+    match a with None => Some false | Some None => Some true | Some (Some v) => parse_bool v end.
+
+  Definition with_opt (fl : xflags) (opt : string) : xflags :=
+    mkXF (xf_on fl) opt (xf_max_history fl) (xf_version fl).
+
+  Definition with_flag (fl : xflags) (n : string) (b : bool) : xflags :=
+    mkXF (fset n b (xf_on fl)) (xf_opt fl) (xf_max_history fl) (xf_version fl).
+
+  Definition x_cmd (g : xcfg) (k : cmdkind) (a : dry_arg) (fl : xflags) (c : xchart) : xprog xoutcome :=
+    let opt := cmd_default_opt (cmd_string_opt a) in
+    match k with
+    | CInstall => if dry_opt_allowed opt then x_install g (with_opt fl opt) c else XRet xerr
+    | CUpgrade => if dry_opt_allowed opt then x_upgrade g (with_opt fl opt) c else XRet xerr
+    | CUpgradeInstall =>
+        reach <- xperform XReach ;;
+        if negb reach then XRet xerr else
+        h <- xperform (XE TReal SHistory) ;;
+        let unin := match h with [] => false | _ => status_eqb (st (List.last h (mkRelease 0 SUnknown 0 0 [] []))) SUninstalled end in
+        if is_nil h || unin then
+          (if dry_opt_allowed opt then x_install g (with_flag (with_opt fl opt) "Replace" unin) c else XRet xerr)
+        else
+          (if dry_opt_allowed opt then x_upgrade g (with_opt fl opt) c else XRet xerr)
+    | CRollback => match cmd_bool_opt a with
+                   | None => XRet xerr
+                   | Some b => x_rollback (with_flag fl "DryRun" b)
+                   end
+    | CUninstall => match cmd_bool_opt a with
+                    | None => XRet xerr
+                    | Some b => x_uninstall (with_flag fl "DryRun" b)
+                    end
+    end.
+
+  (* is the command line a dry-run REQUEST: the flag is there and its value is not one of the
+     documented ways to say "no" (none, false - the empty value is none; for the boolean flag
+     the spellings ParseBool reads as false) *)
+  Definition cmd_dry_request (k : cmdkind) (a : dry_arg) : bool :=
+    match k with
+    | CInstall | CUpgrade | CUpgradeInstall =>
+        match a with
+        | None => false
+        | Some _ => negb (str_in (cmd_default_opt (cmd_string_opt a)) ["none"; "false"])
+        end
+    | CRollback | CUninstall =>
+        match a with
+        | None => false
+        | Some None => true
+        | Some (Some v) => match parse_bool v with Some false => false | _ => true end
+        end
+    end.
+
   (* the four operations and template *)
   Inductive xop :=
   | XInstall (g : xcfg) (fl : xflags) (c : xchart)
   | XUpgrade (g : xcfg) (fl : xflags) (c : xchart)
   | XRollback (fl : xflags)
   | XUninstall (fl : xflags)
-  | XTemplate (g : xcfg) (validate include_crds : bool) (cli : xflags) (c : xchart).
+  | XTemplate (g : xcfg) (validate include_crds : bool) (cli : xflags) (c : xchart)
+  | XCmd (g : xcfg) (k : cmdkind) (a : dry_arg) (fl : xflags) (c : xchart).
 
   Definition xop_prog (o : xop) : xprog xoutcome :=
     match o with
@@ -557,6 +632,7 @@ Section XOps.
     | XRollback fl => x_rollback fl
     | XUninstall fl => x_uninstall fl
     | XTemplate g v i cli c => x_template g v i cli c
+    | XCmd g k a fl c => x_cmd g k a fl c
     end.
 
   (* is the operation a dry run, as the Go code decides *)
@@ -565,6 +641,7 @@ Section XOps.
     | XInstall _ fl _ | XUpgrade _ fl _ => is_dry_run (fb fl "DryRun") (xf_opt fl)
     | XRollback fl | XUninstall fl => fb fl "DryRun"
     | XTemplate _ _ _ _ _ => true
+    | XCmd _ k a _ _ => cmd_dry_request k a
     end.
 End XOps.
 
